@@ -140,3 +140,24 @@ Proof.
   - reflexivity.
   - cbn [merge]. inversion Hall as [|? ? Hr Ht]; subst. apply fold_merge_empty. exact Ht.
 Qed.
+
+(* one thread: the single pass *)
+Theorem one_thread_is_the_single_pass f keys vals mask g :
+  group_reduce_f f keys vals mask 1 g = piece_reduce f g (keep_rows keys vals mask).
+Proof.
+  unfold group_reduce_f, array_split, split_sizes. rewrite Nat.div_1_r, Nat.mod_1_r. cbn [repeat app Nat.sub take_pieces map merge fold_left].
+  rewrite firstn_all. reflexivity.
+Qed.
+
+(* the single pass of group g reads the rows of group g only: values, NaNs and infinities of other groups never enter *)
+Theorem single_pass_ignores_other_groups f g rows :
+  piece_reduce f g rows = piece_reduce f g (filter (fun r => (fst r =? g)%Z) rows).
+Proof.
+  unfold piece_reduce. generalize (zero, 0) as a.
+  induction rows as [|[k x] t IH]; intros a; cbn [fold_left filter fst]; [reflexivity|].
+  destruct (k =? g)%Z eqn:E.
+  - cbn [fold_left]. apply IH.
+  - assert (red_step f g a (k, x) = a) as ->.
+    { unfold red_step. destruct a as [s n]. rewrite E. reflexivity. }
+    apply IH.
+Qed.
